@@ -1088,3 +1088,57 @@ def c20_p5(ctx):
                 yield bad("C20-P5", key, at(f, t["span"]["line"]), "a first-pass segment is sent with the progress update %s: the sender's reported progress stays behind what it has transmitted" % expr_str(flag)[:80])
     if n == 0:
         yield ok("C20-P5", "no-update-flag", "-", "the sender has no progress-update switch on its segment sender (see C20-P3 for the update itself)", nontrivial=False)
+
+
+# ================================================================ C16-R
+@rule("C16", "C16-R", 1, "what the transport hands out as a received PDU is what PDU::decode returned for this datagram (nothing cached, patched or rebuilt from earlier input)")
+def c16_r(ctx):
+    from common import simp, sstr
+
+    fns = [f for f in ctx.prog.by_norm.values() if f.crate == "cfdp_daemon" and "PDUTransport>::receive" in f.norm and f.kind == "Closure" and "pdu::PDU" in (f.locals[0]["ty"] or "")]
+    n = 0
+
+    def is_decode(x):
+        return x[0] == "call" and ((callee_name(x) or "").endswith("PDUEncode>::decode") or "PDUEncode::decode" in (x[1] or ""))
+
+    for f in fns:
+        eb = ExprBuilder(ctx.prog, f, user_stop=True)
+        alts = []
+        for d in f.defs(0):
+            if d[0] in ("assign", "call"):
+                e = simp(eb._def_expr(d, 0, (0,)))
+                alts.extend([(x, d) for x in (e[2] if e[0] == "phi" else (e,))])
+        for e, d in alts:
+            line = d[3].get("span", {}).get("line") if d[0] == "assign" and isinstance(d[3], dict) and "span" in d[3] else None
+            if e[0] == "agg" and e[3] == "Err":
+                continue
+            if e[0] == "call" and (callee_name(e) or "").endswith("from_residual"):
+                continue
+            if e[0] == "place" and re.match(r"^\w+$", e[1]):
+                srcs0 = [simp(x) for x in eb.var_defs(e[1])] or [e]
+            else:
+                srcs0 = [e]
+            for e2 in srcs0:
+                if e2[0] == "agg" and e2[3] == "Err":
+                    continue
+                if expr_str(e2).startswith("(option::Option::None{})@Some.0"):
+                    continue  # async_trait's `if let Some(ret) = None::<T> { return ret }` typing device: unreachable
+                n += 1
+                key = "%s:returned-pdu" % short(f.root or f.norm) + ("#%d" % n if n > 1 else "")
+                good = False
+                what = expr_str(e2)[:120]
+                if is_decode(e2):
+                    good = True  # decode(..) (its error mapped) returned as it is
+                elif e2[0] == "agg" and e2[3] == "Ok" and e2[5]:
+                    v = e2[5][0]
+                    srcs = [v]
+                    if v[0] == "place" and re.match(r"^\w+$", v[1]):
+                        srcs = [simp(x) for x in eb.var_defs(v[1])] or [v]
+                    good = all(x[0] == "proj" and x[2].startswith("@Ok.0") and is_decode(x[1]) for x in srcs)
+                    what = [expr_str(x)[:100] for x in srcs]
+                if good:
+                    yield ok("C16-R", key, at(f), "the PDU returned is the decoder's result for this datagram")
+                else:
+                    yield bad("C16-R", key, at(f), "receive can return %s, which is not the result of decoding the datagram just received: a PDU from earlier input can be delivered for a datagram that does not contain it" % what)
+    if n == 0:
+        raise Anchor("C16-R", "Ok(pdu) returned by an impl of PDUTransport::receive")
